@@ -15,7 +15,7 @@ RULE = ("(line | quadratic | cubic, line) pairs; curves from the families int, g
         "(straight-line curves), elevated with the leading coefficient re-introduced at 10^-k (k = 0..16); lines through a point of the curve in a random, "
         "vertical or horizontal direction (integer, grid and float end points), plus unrelated lines, near-parallel long line pairs and nearly vertical lines; "
         "true crossings by exact Sturm isolation of cross(e - s, A(t) - s) in Q; a pair is in general position when every carrier crossing has both parameters "
-        "either in [1e-4, 1 - 1e-4] (a true crossing) or outside [-1e-4, 1 + 1e-4], the polynomial is square-free, the crossing angle has |sin| >= 0.02 "
+        "either in [1e-4, 1 - 1e-4] (a true crossing) or outside [-1e-4, 1 + 1e-4], the polynomial is square-free, the curve is not within 1e-9 of the extent of the carrier as a whole, the crossing angle has |sin| >= 0.02 "
         "(curves; lines: not exactly parallel) and the curve does not lie on the carrier; other pairs are skipped and counted; both receivers; "
         "non-trivial = at least one true crossing; distinct = distinct pair")
 UNPROVED = ["Cardano closed forms produce the real roots of the monic cubic (sampled against exact Sturm root counts; the polish step is proved to fix exact roots)",
@@ -55,6 +55,9 @@ def expected(apts, lpts):
     g, px, py, dx, dy = carrier_poly(apts, lpts)
     if not pr.trim(g):
         return "on-carrier"
+    ext = F(max(oc.extent(list(apts) + list(lpts)), 1e-9))
+    if max(abs(c) for c in g) ** 2 <= F(1, 10 ** 18) * (dx * dx + dy * dy) * ext * ext:
+        return "on-carrier"          # the whole curve lies within 1e-9 of the extent of the line's carrier: tangential everywhere
     if len(pr.trim(g)) == 1:
         return []
     n2 = dx * dx + dy * dy
@@ -210,6 +213,17 @@ def rand_pair(rng, i):
         apts = [(x, -float(rng.randint(10, 500))), (x * (1 + rng.uniform(1e-10, 9e-10)), float(rng.randint(10, 500)))]
         lpts = [(x - float(rng.randint(10, 300)), float(rng.randint(-5, 5))), (x + float(rng.randint(10, 300)), float(rng.randint(-5, 5)))]
         return apts, lpts
+    if order > 2 and r < 0.25:
+        # a line through two nearby points of the curve: two crossings close together (the aligned polynomial is close to a double root)
+        t0 = rng.uniform(0.1, 0.85)
+        dlt = rng.choice([0.004, 0.006, 0.01, 0.02, 0.05])
+        p = oc.bern_pt(apts, F(t0))
+        q = oc.bern_pt(apts, F(t0 + dlt))
+        p, q = (float(p[0]), float(p[1])), (float(q[0]), float(q[1]))
+        dx, dy = q[0] - p[0], q[1] - p[1]
+        if dx != 0 or dy != 0:
+            k = rng.uniform(5, 40)
+            return apts, [(p[0] - k * dx, p[1] - k * dy), (q[0] + k * dx, q[1] + k * dy)]
     if r < 0.85:
         lpts = line_through(rng, apts, lfam)
     else:
